@@ -99,6 +99,7 @@ package client
 //@   ensures [C08 silent_socket_means_not_running] sockq.err != nil && !err_is(sockq.err, sock.ErrTimeout) ==>
 //@        (err == nil && st != nil && st.Status == scheduler.StatusNone)
 //@   ensures [C08,C16 timeout_is_not_taken_for_not_running] sockq.err != nil && err_is(sockq.err, sock.ErrTimeout) ==> err != nil
+//@   ensures [C08 answer_or_error] err == nil ==> st != nil
 
 //@ fn (*client).currentStatus(c, workflow) (st, err)
 //@   props C08
@@ -188,7 +189,8 @@ package client
 //@   trusted
 //@   modifies heap(alloc), ghost obs.byreq_calls, ghost obs.byreq, ghost obs.byreq_id, ghost obs.byreq_dag, ghost obs.byreq_err
 //@   ensures obs.byreq_calls == old(obs.byreq_calls) + 1 && obs.byreq == st && obs.byreq_id == requestID && obs.byreq_dag == workflow && obs.byreq_err == err
-//@   ensures err == nil ==> (st != nil && (forall i int :: 0 <= i && i < len(st.Nodes) ==> st.Nodes[i] != nil))
+//@   ensures err == nil ==> st != nil
+//@   ensures [assumed_recorded_node_entries_are_not_null] err == nil ==> (forall i int :: 0 <= i && i < len(st.Nodes) ==> st.Nodes[i] != nil)
 //@ fn (Client).UpdateStatus(c, workflow, status) (err)
 //@   props C20
 //@   trusted
@@ -234,6 +236,7 @@ package client
 //@   ensures [C20 run_is_looked_up_by_its_request_id] obs.find_calls == old(obs.find_calls) + 1 && obs.find_loc == workflow.Location && obs.find_id == requestID
 //@   ensures [C20 lookup_failure_is_reported] obs.find_err != nil ==> (err != nil && st == nil)
 //@   ensures [C20 found_run_is_returned] obs.find_err == nil ==> (st == obs.find_sf.Status && err == nil)
+//@   ensures [C20 answer_or_error] err == nil ==> st != nil
 //@   ensures [C08 stale_running_record_of_another_run_is_relabelled_failed] obs.find_err == nil &&
 //@        sockq.err == nil && obs.json_st != nil && obs.json_err == nil && obs.json_st.RequestID != requestID ==> st.Status != scheduler.StatusRunning
 
